@@ -30,7 +30,8 @@ class C11(Prop):
             ops = []
             for _ in range(r.range(1, 4)):
                 o = {"op": "snappath", "api": r.choice(["snap", "snap", "stand", "standjson"]), "test": hx(r.choice(G.TEST_NAMES)),
-                     "form": r.choice(["test", "test", "nontest", "nontest", "utiltest"]),
+                     "form": r.choice(["test", "test", "nontest", "nontest", "utiltest", "nontestdeep"]),
+                     "count": r.choice([1, 5, 23, 24, 25, 40, 120]),      # recursion depth of the non-test helper (form nontestdeep)
                      "values": r.choice([[], ["nontest"], ["nontest2"], ["closure"], ["othertest"], ["othertest", "nontest"],
                                          ["nontest", "closure", "nontest2"], ["utiltest"], ["utiltest", "nontest", "othertest"], ["goroutine"]]),
                      "sort": r.chance(1, 5)}
